@@ -41,11 +41,16 @@ def make_proposals(kind, params, rng):
         if len(params) > 1:
             props.append(P.Normal(params[1:], cov=[1.0] * (len(params) - 1), jump_interval=2, jump_interval_duration=7))
         return props
+    if kind == 'td':
+        from . import configs
+        n = len(params) - 1
+        return [configs.td_proposal(dict(td_n=n, td_family=rng.choice(['normal', 'adaptive_normal', 'ss_adaptive_normal', 'at_adaptive_normal']),
+                                         birth=rng.choice(['uniform', 'normal', 'lognormal']), successive=rng.random() < 0.5, T=8))]
     raise ValueError(kind)
 
 
 class Config:
-    def __init__(self, rng, pt=None, thorough=False):
+    def __init__(self, rng, pt=None, thorough=False, td=None):
         self.pt = rng.random() < 0.65 if pt is None else pt
         self.nparams = rng.choice([1, 2, 2, 3])
         self.params = ['p%d' % i for i in range(self.nparams)]
@@ -61,13 +66,25 @@ class Config:
         self.box = rng.choice([20.0, 20.0, 2.5])      # small box: proposals leave the prior support -> forced rejects
         if self.prop_kind in ('bounded', 'mixed', 'adaptive'):
             self.box = 20.0
+        self.comps = []
+        if (rng.random() < 0.15 and td is None) or td:
+            self.prop_kind = 'td'
+            n = rng.choice([2, 3, 4])
+            self.nparams = n + 1
+            self.params = ['a%d' % i for i in range(1, n + 1)] + ['k']
+            self.comps = [[i] for i in range(n)]
+            self.box = 20.0
 
     def describe(self):
         return dict(pt=self.pt, nparams=self.nparams, blobs=self.blobs, nchains=self.nchains, ntemps=self.ntemps,
                     swap_interval=self.si, betas=self.betas, proposals=self.prop_kind, box=self.box, seed=self.seed)
 
     def build(self, tracer, seed=None):
-        model = GaussModel(self.params, sigma=self.sigma, lo=-self.box, hi=self.box, blobs=self.blobs, log=False)
+        if self.prop_kind == 'td':
+            from .models import TDModel
+            model = TDModel(len(self.params) - 1, sigma=self.sigma, blobs=self.blobs, log=False)
+        else:
+            model = GaussModel(self.params, sigma=self.sigma, lo=-self.box, hi=self.box, blobs=self.blobs, log=False)
         model = tracer.wrap_model(model) if tracer is not None else model
         rng = random.Random(self.seed)
         props = make_proposals(self.prop_kind, self.params, rng)
@@ -81,6 +98,19 @@ class Config:
 
     def start(self, rng):
         shape = (self.ntemps, self.nchains) if self.pt else (self.nchains,)
+        if self.prop_kind == 'td':
+            n = len(self.params) - 1
+            tot = int(numpy.prod(shape))
+            out = {p: numpy.full(tot, numpy.nan) for p in self.params[:-1]}
+            ks = numpy.zeros(tot, dtype=int)
+            for j in range(tot):
+                for p in self.params[:-1]:
+                    if rng.random() < 0.5:
+                        out[p][j] = round(rng.uniform(0.2, 3.8), 3)
+                        ks[j] += 1
+            out = {p: v.reshape(shape) for p, v in out.items()}
+            out['k'] = ks.reshape(shape)
+            return out
         lim = min(self.box, 3.0) * 0.9
         return {p: numpy.array([rng.uniform(-lim, lim) for _ in range(int(numpy.prod(shape)))]).reshape(shape)
                 for p in self.params}
@@ -363,7 +393,7 @@ class CaseBuilder:
                     break
         self.tracer = tracer
         self.sampler = sampler
-        comps = '[]'
+        comps = '[' + '; '.join('[' + '; '.join(str(i) for i in c) + ']' for c in cfg.comps) + ']'
         out = []
         for ci in range(nch):
             for seg in segments[ci] + [terms[ci]]:
